@@ -37,6 +37,8 @@ type scaleCase struct {
 	SrcLine  string        // ... and quote this text
 	RootEq   string        // when set: the JSON output must denote the same value as this JSON text
 	CLI      bool          // also run the real binary
+	ModelWant bool         // no closed form: the expected result is the reference interpreter's (on the implementation's parse, strict mode)
+	Root     bool          // with ModelWant: also compare the JSON output
 	NoModel  bool          // the reference interpreter is not consulted (e.g. its budget would not cover the size)
 	ErrFile  string
 }
@@ -47,6 +49,7 @@ type scaleFam struct {
 	Max   int // largest n at the thorough tier
 	QMax  int // largest n at the quick tier
 	Dense int // thorough: every n up to here (default 1100)
+	All   bool // every n up to Max at both tiers (a family that is a list of fixed programs)
 	Build func(n int) scaleCase
 }
 
@@ -77,6 +80,9 @@ func scaleSizes(f *scaleFam, thorough bool) []int {
 		if dense == 0 {
 			dense = 1100
 		}
+	}
+	if f.All {
+		max, dense = f.Max, f.Max
 	}
 	set := map[int]bool{}
 	for n := 1; n <= dense && n <= max; n++ {
@@ -140,6 +146,24 @@ func scaleCheck(c *fw.Ctx, f *scaleFam, n int) *fw.Violation {
 	sc := f.Build(n)
 	if c.Prop.ID == "C01" {
 		return scaleCrash(c, f, n, sc)
+	}
+	if sc.ModelWant {
+		js, err := lang.VerifAST(sc.Prog)
+		if err != nil {
+			c.Incompl(fmt.Sprintf("scale family %q, n = %d: the program does not parse (%v)", f.Name, n, err))
+			return nil
+		}
+		p, err := refsem.FromImplAST(js)
+		if err != nil {
+			c.Incompl(fmt.Sprintf("scale family %q, n = %d: %v", f.Name, n, err))
+			return nil
+		}
+		pc := &progCase{P: p, Src: sc.Prog, Files: sc.Files, Root: sc.Root, Strict: true, MaxSteps: 30000000}
+		v := pc.mustCheck(c, f.Name)
+		if v != nil {
+			v.What = fmt.Sprintf("%s, n = %d: %s", f.Name, n, v.What)
+		}
+		return v
 	}
 	kind := sc.Kind
 	if kind == "" {
